@@ -61,7 +61,8 @@ class P(vlib.Prop):
             "model accepts), 4 value->JSON tree, 5 JSON tree->value incl. the alternate forms (one-sided). A case is non-trivial when the "
             "encoding has > 2 bytes / the input is non-empty; distinct = distinct case terms.")
     trusted_base = [
-        "Coq 8.16.1 kernel + vm_compute (coqc); no axioms (Print Assumptions: closed under the global context for all 27 theorems)",
+        "Coq 8.16.1 kernel + vm_compute (coqc); no axioms (Print Assumptions: closed under the global context for all 35 theorems)",
+        "translator T1 (tools/go2coq, props/C08/t1_spec.json): the ten sovX helpers, TraceID/SpanID/ProfileID.Size and the typed enum constants are read from the current source; math/bits.Len64 is taken to be N.size",
         "schema translator: harness/C08/schema_test.go reads struct tags, XXX_OneofWrappers and Go field types of pdata/internal/data/protogen/** by reflection on every run and probes each message's emission order by marshalling; validated by the byte-exact correspondence",
         "JSON decoder table: obtained on every run by running the real jsoniter decoders on one minimal document per message x key x token form (harness/C08/jsonmodel_test.go); validated by case kind 5",
         "JSON character level (jsoniter lexer, jsonpb printer, strconv, base64/hex text) is NOT modelled: real documents are parsed into the tree type with encoding/json + strconv along the schema",
@@ -106,6 +107,12 @@ class P(vlib.Prop):
         if not os.path.exists(dst) or open(dst).read() != new:
             with vlib.CoqLock():
                 shutil.copyfile(tmp, dst)
+        # translator T1 (tools/go2coq): sovX of every pb.go, XID.Size, the typed enum constants -> Generated/C08T1.v
+        t1 = os.path.join(vlib.COQ, "Generated", "C08T1.v")
+        before = (open(t1).read(), os.stat(t1)) if os.path.exists(t1) else None
+        vlib.go2coq(ctx, "pdata", os.path.join(vlib.VERIF, "props", "C08", "t1_spec.json"), "C08T1")
+        if before and open(t1).read() == before[0]:
+            os.utime(t1, (before[1].st_atime, before[1].st_mtime))   # unchanged: do not trigger a rebuild
         import hashlib
         if not os.path.exists(tmpj):
             raise vlib.Broken("translator (JSON decoder table by probing) produced no output", "")
